@@ -8,6 +8,7 @@
   fails with UnexpectedEof when the stream ends first (their documented contract).
 -/
 import Rsdns.Model.Client
+import Rsdns.Lemmas.Guards
 
 set_option linter.unusedVariables false
 
@@ -125,8 +126,9 @@ theorem tcp_closed_form (buflen : Nat) (s : Stream) :
     rw [hr]
     simp only [h2, if_false]
     have hpfx : ((#[] : Bytes) ++ ((flat s).take 2).toArray) = ((flat s).take 2).toArray := by simp
-    have hn : ((#[] ++ ((flat s).take 2).toArray : Bytes).getD 0 0).toNat * 256 +
+    have hn : Generated.std_tcp_prefix ((#[] ++ ((flat s).take 2).toArray : Bytes).getD 0 0).toNat
         ((#[] ++ ((flat s).take 2).toArray : Bytes).getD 1 0).toNat = announced (flat s) := by
+      rw [std_tcp_prefix_eq _ _ (UInt8.toNat_lt _) (UInt8.toNat_lt _)]
       unfold announced
       rw [hpfx]
       have hl : 2 ≤ (flat s).length := by omega
@@ -135,6 +137,8 @@ theorem tcp_closed_form (buflen : Nat) (s : Stream) :
       · rw [hfs] at hl; simp at hl
       · simp [Array.getD]
     simp only [hn]
+    unfold Generated.std_tcp_too_big
+    simp only [decide_eq_true_eq]
     by_cases hbig : announced (flat s) > buflen
     · simp [hbig]
     · simp only [hbig, if_false]
@@ -201,5 +205,22 @@ theorem tcp_early_close (buflen : Nat) (s : Stream) (hc : s.closed = true)
 
 /-! non-vacuity: "00 03 | aa bb | cc dd" split in three segments, one trailing byte -/
 example : tcpFraming 512 ⟨[#[0], #[3, 0xaa], #[0xbb, 0xcc, 0xdd]], true⟩ = .ok 3 #[0xaa, 0xbb, 0xcc] := by decide
+
+/-! ### the framing expressions regenerated from the sources (`tcp_exchange` of both clients) -/
+
+/-- the async template frames with the same prefix value and the same bound test as the blocking client -/
+theorem async_framing_is_std :
+    (∀ b0 b1, Generated.async_tcp_prefix b0 b1 = Generated.std_tcp_prefix b0 b1) ∧
+    (∀ n b, Generated.async_tcp_too_big n b = Generated.std_tcp_too_big n b) :=
+  ⟨fun _ _ => rfl, fun _ _ => rfl⟩
+
+/-- `u16::from_be_bytes(prefix) as usize` is the big-endian value of the two octets, and the answer is
+    refused exactly when that value exceeds the caller's buffer -/
+theorem framing_closed_form (b0 b1 : UInt8) (n buflen : Nat) :
+    Generated.std_tcp_prefix b0.toNat b1.toNat = b0.toNat * 256 + b1.toNat ∧
+    (Generated.std_tcp_too_big n buflen = true ↔ n > buflen) := by
+  constructor
+  · exact std_tcp_prefix_eq _ _ (UInt8.toNat_lt _) (UInt8.toNat_lt _)
+  · rw [std_tcp_too_big_eq]; simp
 
 end Rsdns.C14
